@@ -832,6 +832,18 @@ func (x *exec) model(fr *frame, s *State, key string, args []*Val, resT types.Ty
 		return x.mkVal(App(fn, ts...), resT), true
 	case "time.Now":
 		return x.freshVal("now", resT, s), true
+	case "sort.Slice", "sort.SliceStable":
+		// sorting permutes the elements of the slice in place; the comparison function only reads (A-SORT).
+		// Modelled as: the elements of that backing store become unknown, nothing else changes.
+		if len(args) == 2 && args[0].Boxed != nil && isSliceType(args[0].Boxed.Typ) {
+			sl := args[0].Boxed.Typ.Underlying().(*types.Slice)
+			name, sortN := x.elemArr(sl.Elem())
+			h := x.h.get(s, name, sortN)
+			fresh := x.c.FreshConst("sorted", fmt.Sprintf("(Array %s %s)", x.c.I(), x.c.SortOf(sl.Elem())))
+			x.h.set(s, name, sortN, Sto(h, App("s-ref", x.term(args[0].Boxed)), fresh))
+			x.note("A-SORT: %s permutes the slice in place (modelled as unknown contents), its comparison function only reads", key)
+			return &Val{}, true
+		}
 	}
 	return nil, false
 }
